@@ -12,6 +12,10 @@ CHECKS = {
    text='Machine-checked (axiom-free) theorem check_sound: for every proof object (any ids, citations, stated sequents, nesting, macro expansions, arbitrary rule functions) a gap-free acceptance by the model of Theory.check_proof yields a sequent derivable by the rules from earlier-verified steps; plus citation-shape, stated-not-stronger, gap and checked_extend theorems. The model is tied to kernel/theory.py + kernel/proof.py by running ~2.8k proof objects (exhaustive single-item shapes, random shapes with ids independent of positions, mutated valid proofs, extension pairs) through both.',
    note='Trusted: Coq kernel; the hand-written model of _check_proof_item kept honest by the differential correspondence; compute_only mode excluded by design.',
    design='7/C02'),
+ 'C20': dict(category='proof', technique='Coq proof of VC-generator soundness w.r.t. big-step semantics + differential correspondence on VC strings + run-trace oracle on re-parsed VCs',
+   text='Machine-checked (axiom-free) theorem vcg_sound: for every program, assertions and states, if all VCs produced by the model of Com.compute_wp/get_vcs hold then terminating executions from pre-states end in post-states; substitution lemma; interpreter soundness. The model (including the printer) is tied to imperative/com.py, expr.py by comparing the VC strings shown to the user on random and template programs; the re-parsed VC strings are evaluated along reference-interpreter runs; print/parse round trip checked semantically; eval_Sem final states compared with the interpreter.',
+   note='Trusted: Coq kernel; hand-written model kept honest by the string-level correspondence; arrays/fields/function calls/forall not modelled; the Lark parser is exercised, not modelled.',
+   design='7/C20'),
 }
 m = {
  'version': 1,
